@@ -7,6 +7,10 @@ From V Require Import Model.Uri Gen.GenUri Harness.Cmp.
 (* the tables of the interpreter the implementation runs on (regenerated every run) *)
 Definition T : tables := {| t_ws := ws_table; t_intws := intws_table; t_dzero := dzero_table |}.
 
+(* the state-tuple positions __eq__ compares / __hash__ covers, as found in the source on this run *)
+Definition EF : list field := fields_of_codes eq_fields.
+Definition HF : list field := fields_of_codes hash_fields.
+
 Record case := {
   c_q : quirks;               (* which variant the code currently is (probed on the witnesses) *)
   c_ns : Z;                   (* config.NS_PORT *)
@@ -51,12 +55,12 @@ Definition check_case (c : case) : bool :=
     text_eqb st (c_str c) &&
     (let m2 := parse T (c_ns c) st in
      opt_uri_eqb m2 (c_reparse c) &&
-     match m2 with Some u2 => Bool.eqb (uri_eqb u2 u) (c_eq12 c) | None => true end) &&
-    Bool.eqb (match hash_key (c_q c) (fun _ => 0%N) u with Some _ => true | None => false end) (c_hash_ok c)
+     match m2 with Some u2 => Bool.eqb (uri_eqb_on EF u2 u) (c_eq12 c) | None => true end) &&
+    Bool.eqb (match hash_key_on (c_q c) (fun _ => 0%N) HF u with Some _ => true | None => false end) (c_hash_ok c)
   end &&
   (let mv := parse T (c_ns c) (c_s2 c) in
    opt_uri_eqb mv (c_parse2 c) &&
-   match m, mv with Some u, Some v => Bool.eqb (uri_eqb u v) (c_eq_v c) | _, _ => true end).
+   match m, mv with Some u, Some v => Bool.eqb (uri_eqb_on EF u v) (c_eq_v c) | _, _ => true end).
 
 (* diagnostics: what the model computes for a case *)
 Definition model_out (c : case) :=
